@@ -181,6 +181,24 @@ class StreamV:
         return "<stream %s @%s>" % (self.name, self.pos)
 
 
+class StrV:
+    """abstract string: list of character codes (int | Bits | Lin)"""
+
+    def __init__(self, chars):
+        self.chars = list(chars)
+
+    @staticmethod
+    def of(v):
+        if isinstance(v, StrV):
+            return v
+        if isinstance(v, str):
+            return StrV([ord(c) for c in v])
+        return None
+
+    def __repr__(self):
+        return "str[" + " ".join(chr(c) if isinstance(c, int) and 32 <= c < 127 else show(c) for c in self.chars) + "]"
+
+
 class PackerV:
     def __init__(self, fmt):
         self.fmt = fmt
@@ -526,6 +544,12 @@ class Interp:
             srcs = [s for s in v.sources()]
             if not v.has_top() and 0 < len(srcs) <= self.max_split:
                 raise Split(srcs)
+            if not v.has_top():
+                r = self._cmp_bits_const(ast.NotEq(), v, 0)
+                if isinstance(r, bool):
+                    return r
+                if isinstance(r, CondV):
+                    return self.truth_cond(r, node, func)
             return self.unknown(v, node, func)
         if isinstance(v, (Sym, Lin, Comp, Obj, BufV)) or is_unknown(v):
             if isinstance(v, Obj):
@@ -533,6 +557,8 @@ class Interp:
             return self.unknown(v, node, func)
         if isinstance(v, BytesV):
             return len(v.bytes) > 0
+        if isinstance(v, StrV):
+            return len(v.chars) > 0
         if isinstance(v, CondV):
             return self.truth_cond(v, node, func)
         try:
@@ -754,6 +780,10 @@ class Interp:
             ca, cb = _as_bytesv(a), _as_bytesv(b)
             if ca is not None and cb is not None:
                 return BytesV(ca.bytes + cb.bytes)
+        if isinstance(op, ast.Add) and (isinstance(a, StrV) or isinstance(b, StrV)):
+            sa, sb = StrV.of(a), StrV.of(b)
+            if sa is not None and sb is not None:
+                return StrV(sa.chars + sb.chars)
         if isinstance(a, (list, tuple)) and isinstance(b, (list, tuple)) and isinstance(op, ast.Add) and type(a) == type(b):
             return a + b
         if isinstance(a, list) and isinstance(b, Comp) or isinstance(a, Comp) and isinstance(b, (list, Comp)):
@@ -999,6 +1029,8 @@ class Interp:
                         return BufV(base.name, base.start + lo_, ln)
                 if isinstance(base, BytesV) and (lo is None or isinstance(lo, int)) and (hi is None or isinstance(hi, int)):
                     return BytesV(base.bytes[lo:hi])
+                if isinstance(base, StrV) and (lo is None or isinstance(lo, int)) and (hi is None or isinstance(hi, int)):
+                    return StrV(base.chars[lo:hi])
                 if isinstance(base, (list, tuple, str, bytes)) and (lo is None or isinstance(lo, int)) and (hi is None or isinstance(hi, int)):
                     return base[lo:hi]
             return Sym("slice", base, lo, hi)
@@ -1030,6 +1062,11 @@ class Interp:
                 srcs = kk.sources()
                 if not kk.has_top() and 0 < len(srcs) <= self.max_split:
                     raise Split(srcs)
+        if isinstance(base, StrV) and isinstance(kk, int):
+            try:
+                return StrV([base.chars[kk]])
+            except IndexError:
+                raise Raised("IndexError", e)
         if isinstance(base, BytesV) and isinstance(kk, int):
             return Bits.source(base.bytes[kk], False)
         if isinstance(base, BufV) and isinstance(kk, int) and kk >= 0:
@@ -1189,6 +1226,22 @@ class Interp:
                 return self.struct_pack(args[0], args[1:], e, func)
             if name == "calcsize" and isinstance(args[0], str):
                 return _struct.calcsize(args[0])
+        if isinstance(recv, StrV):
+            if name == "split" and len(args) == 1 and isinstance(args[0], str) and args[0]:
+                sep = [ord(c) for c in args[0]]
+                parts, cur, i = [], [], 0
+                ch = recv.chars
+                while i < len(ch):
+                    if ch[i:i + len(sep)] == sep:
+                        parts.append(StrV(cur))
+                        cur = []
+                        i += len(sep)
+                    else:
+                        cur.append(ch[i])
+                        i += 1
+                parts.append(StrV(cur))
+                return parts
+            return Sym("call", Sym("attr", recv, name), *args)
         if isinstance(recv, list):
             if name == "append":
                 recv.append(args[0])
@@ -1388,6 +1441,8 @@ def _b_len(it, args, kwargs, e, func):
         return len(v)
     if isinstance(v, BytesV):
         return len(v.bytes)
+    if isinstance(v, StrV):
+        return len(v.chars)
     if isinstance(v, BufV) and v.length is not None:
         return v.length
     return Sym("len", v)
@@ -1413,6 +1468,13 @@ def _b_int(it, args, kwargs, e, func):
 
 
 def _b_isinstance(it, args, kwargs, e, func):
+    v, t = args[0], args[1] if len(args) > 1 else None
+    if isinstance(t, Sym) and t.op == "name" and t.args[0] in ("str", "int", "bytes", "list", "tuple", "dict"):
+        tn = t.args[0]
+        if isinstance(v, (StrV, str)):
+            return tn == "str"
+        if isinstance(v, (Bits,)) or (isinstance(v, int) and not isinstance(v, bool)):
+            return tn == "int"
     return Sym("isinstance", *args)
 
 
@@ -1428,8 +1490,28 @@ def _b_simple(name):
     return f
 
 
-_BUILTINS = {"len": _b_len, "range": _b_range, "int": _b_int, "isinstance": _b_isinstance}
-for _n in ("abs", "min", "max", "ord", "chr", "str", "float", "bool", "hex", "sorted", "list", "tuple", "bytes", "bytearray", "repr", "sum", "round", "pow"):
+def _b_ord(it, args, kwargs, e, func):
+    v = args[0]
+    if isinstance(v, str) and len(v) == 1:
+        return ord(v)
+    if isinstance(v, StrV) and len(v.chars) == 1:
+        return v.chars[0]
+    if isinstance(v, StrV):
+        raise Raised("TypeError", e, "ord() expected a character")
+    return Sym("ord", v)
+
+
+def _b_chr(it, args, kwargs, e, func):
+    v = _int(args[0])
+    if isinstance(v, int):
+        return chr(v)
+    if isinstance(v, (Bits, Lin)):
+        return StrV([v])
+    return Sym("chr", v)
+
+
+_BUILTINS = {"len": _b_len, "range": _b_range, "int": _b_int, "isinstance": _b_isinstance, "ord": _b_ord, "chr": _b_chr}
+for _n in ("abs", "min", "max", "str", "float", "bool", "hex", "sorted", "list", "tuple", "bytes", "bytearray", "repr", "sum", "round", "pow"):
     _BUILTINS[_n] = _b_simple(_n)
 
 
